@@ -12,6 +12,8 @@ cache layers (plus the invocation's own writes for `findw`).
   findl <id4> <prefix> <opts>               -> invalid:<i> | fault | ok:[item,...]   (live model store, now)
   findh <h> <id4> <prefix> <opts>           -> the same on the trie of height h
   findw <h|live> <id4> <prefix> <opts> <key> <val|del> ...  -> the same after the invocation's own writes
+  getw <h|live> <id4> <key> <k> <v|del> ... -> <val hex> | none   System.Storage.Get after the invocation's own
+                                               writes: model store stack (live) / cache layers over TrieStore (h)
   dfindh / dfindw / dget                    -> as findh / findw / get: the harness created the historic context
                                                earlier and evaluates it after later blocks were stored; the model's
                                                answer is the view of height h regardless (historic_view_stable)
@@ -21,6 +23,8 @@ cache layers (plus the invocation's own writes for `findw`).
   local                                     -> <CurrentLocalHeight> <CurrentLocalStateRoot hex>
   reset <h>                                 -> ok       ResetState(h) on the model, heights above h forgotten
   restart                                   -> ok       Init(current height) on the model
+  (in the rpc* lines <id4> may also be <mgmt id4><contract hash, 20 bytes BE>: the model then resolves the id
+   from Management's record at the same height, Model/StateCommit/RpcId.lean)
   rpcget <h> <id4> <key>                    -> <val hex> | none                 getstate
   rpcproof <h> <id4> <key>                  -> <id‖key> <node,node,...> | none  getproof
   rpcverify <h> <id‖key> <node,node,...>    -> <val hex> | invalid              verifyproof against the root of h
@@ -31,7 +35,9 @@ import NeoModel.Base.Sha256
 import NeoModel.Model.Mpt
 import NeoModel.Model.StateCommit.Find
 import NeoModel.Model.StateCommit.Roots
+import NeoModel.Model.StateCommit.Get
 import NeoModel.Model.StateCommit.Rpc
+import NeoModel.Model.StateCommit.RpcId
 import NeoModel.Props.C03
 open NeoModel NeoModel.Mpt
 
@@ -83,6 +89,12 @@ def writeLayer (id : Nat) (ws : List (Bytes × Option Bytes)) : Store.Layer :=
   ws.foldl (fun L w => L.set (StateCommit.Find.storageKey 0x70 id w.1) w.2) (Store.Layer.fresh true)
 
 def idOf (b : Bytes) : Nat := Wire.leVal b
+
+/-- the contract an RPC line addresses: 4 bytes = the id; 24 bytes = Management's id ‖ contract hash, resolved
+on the trie of the height (`none`: unknown contract). -/
+def rpcId (t : Node) (b : Bytes) : Option Nat :=
+  if b.length == 4 then some (idOf b)
+  else StateCommit.Rpc.contractId t (idOf (b.take 4)) (b.drop 4)
 
 def parseNodes (s : String) : Option (List Bytes) :=
   if s == "none" then some [] else (s.splitOn ",").mapM Hex.decode
@@ -188,17 +200,29 @@ def step (s : St) (ws0 : List String) : St × String :=
           (s, showOut (StateCommit.Find.findHistoric t [W, Store.Layer.fresh false] 0x70 (idOf idb) p o))
         | none => (s, "no-such-height")
     | _, _, _, _ => (s, "bad-op")
+  | "getw" :: h :: id :: key :: items =>
+    match Hex.decode id, Hex.decode key, parsePairs items with
+    | some idb, some kb, some wr =>
+      let W := writeLayer (idOf idb) wr
+      let shw (o : Option Bytes) : String := match o with | some v => Hex.encode v | none => "none"
+      if h == "live" then
+        (s, shw (StateCommit.Find.getLive (.cached W s.live) 0x70 (idOf idb) kb))
+      else
+        match h.toNat?.bind (fun hn => s.hist.lookup hn) with
+        | some t => (s, shw (StateCommit.Find.getHistoric t [W, Store.Layer.fresh false] 0x70 (idOf idb) kb))
+        | none => (s, "no-such-height")
+    | _, _, _ => (s, "bad-op")
   | ["rpcget", h, id, key] =>
     match h.toNat?.bind (fun hn => s.hist.lookup hn), Hex.decode id, Hex.decode key with
     | some t, some idb, some kb =>
-      match StateCommit.Rpc.getState t (idOf idb) kb with
+      match (rpcId t idb).bind fun id => StateCommit.Rpc.getState t id kb with
       | some v => (s, Hex.encode v)
       | none => (s, "none")
     | _, _, _ => (s, "bad-op")
   | ["rpcproof", h, id, key] =>
     match h.toNat?.bind (fun hn => s.hist.lookup hn), Hex.decode id, Hex.decode key with
     | some t, some idb, some kb =>
-      match StateCommit.Rpc.getProof H t (idOf idb) kb with
+      match (rpcId t idb).bind fun id => StateCommit.Rpc.getProof H t id kb with
       | some (sk, ps) => (s, Hex.encode sk ++ " " ++ showNodes ps)
       | none => (s, "none")
     | _, _, _ => (s, "bad-op")
@@ -214,7 +238,10 @@ def step (s : St) (ws0 : List String) : St × String :=
     | some t, some idb, some p, some cnt =>
       let k : Option (Option Bytes) := if key == "nil" then some none else (Hex.decode key).map some
       match k with
-      | some ko => (s, showFind (StateCommit.Rpc.findStates t (idOf idb) p ko cnt))
+      | some ko =>
+        match rpcId t idb with
+        | some id => (s, showFind (StateCommit.Rpc.findStates t id p ko cnt))
+        | none => (s, "err:unknowncontract")
       | none => (s, "bad-op")
     | _, _, _, _ => (s, "bad-op")
   | _ => (s, "bad-op")
